@@ -80,7 +80,10 @@ def readStreamData (inp : Bytes) (off : Nat) (declared : Option Nat) : Except Er
     | _, _ =>
       match findEndstream data 0 with
       | none => .error .malformed
-      | some p => .ok (start, trimTrailingEOL data p, data.drop (p + 10))
+      -- `p` is (the last byte of) the EOL marker in front of `endstream`: it belongs to the range
+      -- handed to `trimTrailingEOL`, so exactly this one marker (LF, CR or CR LF) is removed and an
+      -- EOL which ends the data itself is kept (library fix D100)
+      | some p => .ok (start, trimTrailingEOL data (p + 1), data.drop (p + 10))
 
 def kLen : Bytes := [76, 101, 110, 103, 116, 104]
 
